@@ -272,34 +272,51 @@ func (w *World) Tail(mode, maxRounds int) int {
 	// mode 2 counts only the rounds whose ELECTED leader is honest (the adversary may waste its own rounds,
 	// that is bounded by the sortition); the total is capped so that the tail terminates
 	total := maxRounds
-	if mode == 2 {
+	if mode >= 2 {
 		total = 4 * maxRounds
 	}
 	counted := 0
+	var startRound uint64
+	for i, n := range w.Nodes {
+		if w.Live(i) && n.BFT.Round > startRound {
+			startRound = n.BFT.Round
+		}
+	}
 	for r := 1; r <= total && counted < maxRounds; r++ {
 		before := len(w.Commits)
 		w.silent = mode == 0 && w.Cfg.Byz >= 0
 		sc := Scenario{}
 		counted++
-		if mode == 2 {
+		if mode >= 2 {
 			// an ACTIVE adversary after GST: elected, it proposes and withholds its PRECOMMIT; not elected but
-			// holding an election certificate of an earlier round, it usurps the round the same way
+			// holding an election certificate of an earlier round, it usurps the round the same way; it spams;
+			// mode 3: its election vote additionally reaches every elected leader first (lock veto)
 			in := w.Info()
-			sc.S = 1
+			sc.S = mode - 1
 			switch {
 			case in.LeaderStay == in.Byz:
-				sc = Scenario{L: 3, Q1: 3, S: 1}
+				sc = Scenario{L: 3, Q1: 3, S: mode - 1}
 				counted--
 			case in.ByzElect:
-				sc = Scenario{U: 1, L: 3, Q1: 3, S: 1}
+				sc = Scenario{U: 1, L: 3, Q1: 3, S: mode - 1}
 			}
 		}
 		if !w.RunRound(sc) {
 			w.RunRound(Scenario{S: sc.S})
 		}
 		w.silent = false
+		// "a bounded number of rounds" is about round NUMBERS too: in lockstep all nodes can jump to round 10^9 together
+		// and still commit there after that round's timeouts (years); a node whose round number ran away did not converge
+		for i, n := range w.Nodes {
+			if w.Honest(i) && w.Live(i) && n.BFT.Round > startRound+uint64(total)+1 {
+				return -1
+			}
+		}
 		for _, c := range w.Commits[before:] {
 			if w.Honest(c.Node) {
+				if c.Round > startRound+uint64(total)+1 {
+					return -1
+				}
 				if counted == 0 {
 					return 1
 				}
